@@ -46,8 +46,9 @@ type c20Plan struct {
 	DupInit  bool  `json:"dup_init,omitempty"` // the board re-delivers the round's opening proposal once more after the ceremony has begun (live nodes refuse the copy)
 	// Old014 (with Adapt014): bit i set = only participant i still ran 0.1.4 in the original ceremony (its deals carry no
 	// self-confirmation, its key announcement no polynomial); 0 = everybody did
-	Old014  int `json:"old_014,omitempty"`
-	Aborted int `json:"aborted,omitempty"` // the dump begins with an earlier attempt of the same participants that was aborted: 1 = an unreadable commitment (every machine reports a deals-step error), 2 = an undecryptable deal (its recipient reports a responses-step error)
+	Old014  int  `json:"old_014,omitempty"`
+	Twins   bool `json:"twins,omitempty"`   // the first two participants' names differ only in letter case
+	Aborted int  `json:"aborted,omitempty"` // the dump begins with an earlier attempt of the same participants that was aborted: 1 = an unreadable commitment (every machine reports a deals-step error), 2 = an undecryptable deal (its recipient reports a responses-step error)
 }
 
 func c20Gen(rt *rapid.T) c20Plan {
@@ -56,7 +57,7 @@ func c20Gen(rt *rapid.T) c20Plan {
 		Batches: rapid.IntRange(0, 2).Draw(rt, "batches"), Junk: rapid.IntRange(0, 3).Draw(rt, "junk"),
 		Adapt014: rapid.Bool().Draw(rt, "adapt"), Proposer: rapid.IntRange(0, nt[0]-1).Draw(rt, "proposer"), Prior: rapid.IntRange(0, 2).Draw(rt, "prior") == 0, CLI: rapid.IntRange(0, 3).Draw(rt, "cli") == 0,
 		DupInit: rapid.IntRange(0, 3).Draw(rt, "dupInit") == 0, Restart: rapid.Bool().Draw(rt, "restartAfter"),
-		Aborted: rapid.SampledFrom([]int{0, 0, 0, 1, 2}).Draw(rt, "aborted"), Old014: rapid.SampledFrom([]int{0, 0, 1, 2, 3, 4, 5, 6}).Draw(rt, "old014")}
+		Aborted: rapid.SampledFrom([]int{0, 0, 0, 1, 2}).Draw(rt, "aborted"), Old014: rapid.SampledFrom([]int{0, 0, 1, 2, 3, 4, 5, 6}).Draw(rt, "old014"), Twins: rapid.IntRange(0, 3).Draw(rt, "twins") == 0}
 }
 
 // c20AbortedAttempt runs, on the original board, a key generation of the same participants that one faulty airgapped
@@ -162,7 +163,11 @@ func to014(msgs []storage.Message, old func(sender string) bool) []storage.Messa
 }
 
 func c20Original(p c20Plan, root string) (o c20Orig) {
-	w, err := world.New(world.Config{N: p.N, Seed: []byte(fmt.Sprintf("c20|%d|%d", p.N, p.T)), Root: root})
+	ocfg := world.Config{N: p.N, Seed: []byte(fmt.Sprintf("c20|%d|%d", p.N, p.T)), Root: root}
+	if p.Twins {
+		ocfg.Names = world.CaseTwinNames(p.N)
+	}
+	w, err := world.New(ocfg)
 	if err != nil {
 		o.Err = err
 		return
@@ -586,6 +591,9 @@ func c20Run(t *testing.T, st *vstat.Stats, p c20Plan) *viol {
 		}
 		synctest.Test(t, func(t *testing.T) {
 			cfg := world.Config{N: p.N, Seed: []byte(fmt.Sprintf("c20|%d|%d", p.N, p.T)), HotSalt: "-fresh", Root: tmpRoot("c20b-")}
+			if p.Twins {
+				cfg.Names = world.CaseTwinNames(p.N)
+			}
 			defer os.RemoveAll(cfg.Root)
 			time.Sleep(48 * time.Hour) // the re-initialisation happens later than the ceremony
 			obs = c20Reinit(p, o, cfg, o.Log)
@@ -612,6 +620,9 @@ func c20Run(t *testing.T, st *vstat.Stats, p c20Plan) *viol {
 	}
 	if p.Restart {
 		st.Class("machines-restarted-after-reinit")
+	}
+	if p.Twins && !p.Recorded {
+		st.Class("participants-with-names-equal-up-to-case")
 	}
 	if p.Aborted > 0 && !p.Recorded {
 		st.Class(fmt.Sprintf("dump-begins-with-aborted-attempt:%d", p.Aborted))
